@@ -362,6 +362,14 @@ def run(ctx):
     work.mkdir(exist_ok=True)
     terms, replays = [], []
     orc_fail = set()
+    import time
+    t_phase = [time.time()]
+    phases = ctx.notes.setdefault("phase_seconds", {})
+
+    def lap(name):
+        now = time.time()
+        phases[name] = round(phases.get(name, 0.0) + now - t_phase[0], 2)
+        t_phase[0] = now
 
     def add(term, replay, sig):
         terms.append(term)
@@ -536,8 +544,77 @@ def run(ctx):
             g.set_parent_attributes(par, 2, 4, 1, 3)
         case_save(g, vals, "random grid", rng.choice(["a", "grid_1", "Tile"]))
 
-    # ------------------------------------------------------------------
-    # B. hand-written headers (and raw data of either byte order)
+    lap("prove+save/load")
+    # A2. the same on LARGER shapes (implementation-level oracle only: the rasters are too big for case terms):
+    # a single long row / column and rectangles whose byte size sits on, just below and just above the usual
+    # buffer sizes (4 KiB, 8 KiB, 64 KiB, 1 MiB), saved by Grid.save, and the same raster written by hand in
+    # the other byte order, through every loading path
+    def big_values(dt, n, seed):
+        """n cell values over all bit patterns of the type (canonical NaN), reproducible from seed"""
+        dt = np.dtype(dt)
+        u = np.random.default_rng(seed).integers(0, 1 << (8 * dt.itemsize), size=n, dtype=np.dtype(f"u{dt.itemsize}"),
+                                                 endpoint=False)
+        a = u.view(dt).copy()
+        if dt.kind == "f":
+            a[np.isnan(a)] = np.nan
+        return a
+
+    def case_save_big(dt, nrows, ncols, geo, nd, seed, tag):
+        dt = np.dtype(dt)
+        vals = big_values(dt, nrows * ncols, seed).reshape(nrows, ncols)
+        g = hygrid.Grid("big", ncols, nrows, cellsize=geo[0], xllcorner=geo[1], yllcorner=geo[2], dtype=dt.type,
+                        nodata=nd, comment="larger shape")
+        g[np.arange(nrows * ncols)] = vals.ravel()
+        rp = {"kind": "save-load-big", "call": "Grid.save -> from_header/from_stream/from_zip", "dtype": dt.name,
+              "nrows": nrows, "ncols": ncols, "geo": list(geo), "nodata": repr(nd), "value_seed": seed, "how": tag}
+        cm.mark(rp)
+        ctx.count(("save-load-big", dt.name, nrows == 1, ncols == 1))
+        if np.ascontiguousarray(g.data).tobytes() != vals.tobytes():
+            return          # the values did not enter the grid unchanged: not a statement about save/load
+        pb = work / "big.bil"
+        try:
+            g.save(pb)
+        except Exception as e:
+            fail(None, "C13/save-load/raises", f"Grid.save of a {nrows}x{ncols} {dt.name} grid raises {e!r}", rp)
+            return
+        for fn, how, gl in load_all(pb.with_suffix(".hdr")):
+            what = f"Grid.save of a {nrows}x{ncols} {dt.name} grid then Grid.{fn} [{how}]"
+            rp1 = dict(rp, loader=[fn, how])
+            if isinstance(gl, Exception):
+                fail(None, "C13/save-load/raises", f"{what}: {gl!r}", rp1)
+                continue
+            for mode, msg in compare_meta(g, gl, what) + compare_values(vals, gl, what):
+                fail(None, f"C13/{fn}/{mode}", msg, rp1)
+        # the same raster produced elsewhere in the other byte order (items most significant byte first)
+        if dt.itemsize > 1:
+            ph = work / "big_m.hdr"
+            ph.write_text(raster_header(dt, "M", nrows, ncols, geo, nd, PLAIN))
+            ph.with_suffix(".bil").write_bytes(vals.astype(dt.newbyteorder(">")).tobytes())
+            for fn, how, gl in load_all(ph):
+                what = f"{nrows}x{ncols} {dt.name} raster with BYTEORDER M read by Grid.{fn} [{how}]"
+                rp1 = dict(rp, loader=[fn, how], byteorder="M")
+                if isinstance(gl, Exception):
+                    fail(None, f"C13/{fn}/raises", f"{what}: {gl!r}", rp1)
+                    continue
+                for mode, msg in compare_meta(g, gl, what) + compare_values(vals, gl, what):
+                    fail(None, f"C13/{fn}/{mode}", msg, rp1)
+
+    def big_cases(n):
+        for k in range(n):
+            dt = np.dtype(DTYPES[k % len(DTYPES)])
+            nbytes = rng.choice([4096, 8192, 65536, 1 << 20 if ctx.thorough or k % 4 == 0 else 65536])
+            ncell = max(2, nbytes // dt.itemsize + rng.choice([-1, 0, 1, 1, rng.randint(2, 300)]))
+            shp = rng.random()
+            if shp < 0.3:
+                nrows, ncols = 1, ncell
+            elif shp < 0.5:
+                nrows, ncols = ncell, 1
+            else:
+                nrows = rng.choice([2, 3, 7, 64, 100, 255, 256, 257])
+                ncols = max(1, ncell // nrows + rng.choice([0, 1]))
+            geo = (rand_double(rng, 0.7), rand_double(rng, 0.7), rand_double(rng, 0.7))
+            yield dt, nrows, ncols, geo, rand_nodata(rng, dt), rng.randrange(10 ** 9)
+
     PIXELTYPES = ["SIGNEDINT", "UNSIGNEDINT", "FLOAT", "INT", "signedint", "Float", "UNSIGNED INT", "SIGNED INT",
                   "UINT", "SIGNED", "F", "I", "U", "unsignedinteger", "floating", "INTEGER", "signedintx", "xfloat",
                   "nt", ""]
@@ -788,6 +865,11 @@ def run(ctx):
             case_raster(dt, bo, nrows, ncols, patterns(rand_values(rng, dt, nrows * ncols)), rand_nodata(rng, dt),
                         "hand-written raster, byte order " + bo, geo, style)
 
+    lap("headers+rasters")
+    for dt_, nr_, nc_, geo_, nd_, seed_ in big_cases(ctx.scale(11, 110)):
+        case_save_big(dt_, nr_, nc_, geo_, nd_, seed_, "larger shape")
+
+    lap("larger shapes")
     # ------------------------------------------------------------------
     # pixel type expression
     import ast
@@ -884,23 +966,143 @@ def run(ctx):
                 fail(None, "C13/clone/not-independent", f"{cl_name}: changing the original grid changed its clone",
                      dict(base, values=patterns(cur), clone=cl_name))
 
+    lap("resub+dict+clone")
     # ------------------------------------------------------------------
     # E. clip
-    def case_clip(g, vals, box, tag):
+    def clip_cands(q, n, amb):
+        """cells along one axis (counted from the lower-left corner of the parent) that may hold a box corner
+        lying exactly q cells from the origin: floor(q), plus the neighbour across the edge when q is within
+        `amb` cells (rounding of the binary64 quotient) of that edge.  Returns (cells inside the grid,
+        whether every candidate is inside the grid)."""
+        f = math.floor(q)
+        out = {f}
+        if q - f < amb:
+            out.add(f - 1)
+        if f + 1 - q < amb:
+            out.add(f + 1)
+        return {v for v in out if 0 <= v < n}, all(0 <= v < n for v in out)
+
+    def judge_clip(i, rp, g, vals, box, c, exc):
+        """Oracle of the clip clause for ANY box with both corners inside the extent (corners on cell edges,
+        on cell centres, on the extent's own corner... included), by exact rationals and independent of the
+        cells the library attributes to the corners:
+          * every cell of the clip has its centre (from the clip's OWN georeferencing) on the centre of a cell
+            of the parent, and holds that cell's value;
+          * the clip is the block of parent cells from the cell of the lower-left corner to the cell of the
+            upper-right corner (either neighbour is accepted for a corner within rounding of a cell edge);
+          * the call does not raise when no reading of the corners leaves the grid."""
+        bx0, by0, bx1, by1 = box
+        nrows, ncols = int(g.nrows), int(g.ncols)
+        xll, yll, csz = float(g.xllcorner), float(g.yllcorner), float(g.cellsize)
+        dt = np.dtype(g.dtype)
+        X0, Y0, S = Fr(xll), Fr(yll), Fr(csz)
+        scale = max(abs(xll), abs(yll), abs(bx0), abs(by0), abs(bx1), abs(by1)) / csz
+        amb = Fr(1e-9 + 4e-16 * scale)
+        colsL, inL = clip_cands((Fr(bx0) - X0) / S, ncols, amb)
+        colsR, inR = clip_cands((Fr(bx1) - X0) / S, ncols, amb)
+        rowsB, inB = clip_cands((Fr(by0) - Y0) / S, nrows, amb)      # counted from the bottom
+        rowsT, inT = clip_cands((Fr(by1) - Y0) / S, nrows, amb)
+        desc = f"parent {nrows}x{ncols} {dt.name}, cellsize {csz!r}, corner ({xll!r}, {yll!r}), box {list(box)!r}"
+        if c is None:
+            if inL and inR and inB and inT:
+                fail(i, "C13/clip/raises", f"clip to a box inside the extent raised {exc!r} ({desc})", rp)
+            return
+        cn_r, cn_c = int(c.nrows), int(c.ncols)
+        if cn_r < 1 or cn_c < 1 or c.data.shape != (cn_r, cn_c):
+            fail(i, "C13/clip/shape", f"clip has nrows, ncols = {(cn_r, cn_c)} and data of shape {c.data.shape} ({desc})", rp)
+            return
+        CS, CX, CY = Fr(float(c.cellsize)), Fr(float(c.xllcorner)), Fr(float(c.yllcorner))
+        tol = Fr(1e-9 * csz + 4e-16 * (abs(xll) + abs(yll) + csz * (nrows + ncols)))
+
+        def parent_of(a, b):
+            """parent cell (row, column) whose centre is nearest to the centre of clip cell (a, b); distance"""
+            ex = CX + CS * (b + Fr(1, 2))
+            ey = CY + CS * (cn_r - 1 - a + Fr(1, 2))
+            ux, uy = (ex - X0) / S - Fr(1, 2), (ey - Y0) / S - Fr(1, 2)
+            pc, pb = math.floor(ux + Fr(1, 2)), math.floor(uy + Fr(1, 2))
+            return nrows - 1 - pb, pc, max(abs(ux - pc), abs(uy - pb)) * S, (float(ex), float(ey))
+
+        same_lattice = CS == S
+        if same_lattice or cn_r * cn_c <= 4:
+            probe = sorted({(0, 0), (cn_r - 1, cn_c - 1), (0, cn_c - 1), (cn_r - 1, 0)})
+        else:       # another cell size: no short cut, cell by cell (a sample of a big clip)
+            probe = [(a_, b_) for a_ in range(cn_r) for b_ in range(cn_c)]
+            if len(probe) > 400:
+                probe = probe[:100] + probe[-100:] + [probe[rng.randrange(len(probe))] for _ in range(200)]
+        got_cells = {}
+        for a_, b_ in probe:
+            pr, pc, dev, ctr = parent_of(a_, b_)
+            if dev > tol or not (0 <= pr < nrows and 0 <= pc < ncols):
+                fail(i, "C13/clip/centres",
+                     f"clip cell ({a_},{b_}) has its centre at {ctr} (clip corner ({float(c.xllcorner)!r}, "
+                     f"{float(c.yllcorner)!r}), cellsize {float(c.cellsize)!r}): "
+                     + ("no cell of the parent has this centre" if dev > tol else
+                        f"that is the centre of cell ({pr},{pc}), outside the parent") + f" ({desc})", rp)
+                return
+            got_cells[(a_, b_)] = (pr, pc)
+        pr0, pc0 = got_cells[(0, 0)]
+        if same_lattice:
+            if got_cells[(cn_r - 1, cn_c - 1)] != (pr0 + cn_r - 1, pc0 + cn_c - 1):
+                fail(i, "C13/clip/centres", f"clip cells (0,0) and ({cn_r - 1},{cn_c - 1}) lie on parent cells "
+                                            f"{(pr0, pc0)} and {got_cells[(cn_r - 1, cn_c - 1)]} ({desc})", rp)
+                return
+            want = np.ascontiguousarray(vals[pr0:pr0 + cn_r, pc0:pc0 + cn_c])
+            gotv = np.ascontiguousarray(c.data)
+        else:
+            want = np.array([vals[got_cells[ab]] for ab in probe], dtype=vals.dtype)
+            gotv = np.array([c.data[ab] for ab in probe], dtype=c.data.dtype)
+        # "holds exactly the parent's values": bits when the type is kept, exact numeric comparison otherwise
+        if gotv.dtype == want.dtype:
+            neq = (gotv.view(f"u{dt.itemsize}") != want.view(f"u{dt.itemsize}")).ravel()
+        else:
+            neq = np.array([not (wv == gv or (wv != wv and gv != gv))
+                            for wv, gv in zip(want.ravel().tolist(), gotv.ravel().tolist())], dtype=bool)
+        if neq.any():
+            k_ = int(np.flatnonzero(neq)[0])
+            a_, b_ = divmod(k_, cn_c) if same_lattice else probe[k_]
+            pr, pc = (pr0 + a_, pc0 + b_) if same_lattice else got_cells[(a_, b_)]
+            fail(i, "C13/clip/values",
+                 f"Grid.clip: {int(neq.sum())} of {neq.size} clip cells do not hold the parent's value at the same "
+                 f"centre, e.g. clip cell ({a_},{b_}), centre {parent_of(a_, b_)[3]} = centre of parent cell "
+                 f"({pr},{pc}): clip {gotv.ravel()[k_]!r}, parent {want.ravel()[k_]!r} [clip corner "
+                 f"({float(c.xllcorner)!r}, {float(c.yllcorner)!r}), shape {(cn_r, cn_c)}] ({desc})", rp)
+            return
+        if same_lattice:
+            bot, top = nrows - 1 - (pr0 + cn_r - 1), nrows - 1 - pr0
+            if pc0 not in colsL or pc0 + cn_c - 1 not in colsR or bot not in rowsB or top not in rowsT:
+                fail(i, "C13/clip/shape",
+                     f"clip covers parent columns {pc0}..{pc0 + cn_c - 1} and rows {pr0}..{pr0 + cn_r - 1}; the box "
+                     f"corners lie in column {sorted(colsL)} / row {sorted(nrows - 1 - v for v in rowsB)} (lower left) and "
+                     f"column {sorted(colsR)} / row {sorted(nrows - 1 - v for v in rowsT)} (upper right) ({desc})", rp)
+
+    def case_clip(g, vals, box, tag, model=True, spec=None):
+        """model=False: implementation-level oracle only (grids too big for a case term); spec = replay
+        description of the grid when it is not grid_spec(g, vals)"""
         bx0, by0, bx1, by1 = box
         nrows, ncols = int(g.nrows), int(g.ncols)
         xll, yll, csz = float(g.xllcorner), float(g.yllcorner), float(g.cellsize)
         dt = np.dtype(g.dtype)
         m = Meta.of(g)
-        base = dict(grid_spec(g, vals), kind="clip", call="Grid.clip", box=[bx0, by0, bx1, by1], how=tag)
+        base = dict(spec if spec is not None else grid_spec(g, vals), kind="clip", call="Grid.clip",
+                    box=[bx0, by0, bx1, by1], how=tag)
         cm.mark(base)
+        if not model:
+            try:
+                with np.errstate(all="ignore"):
+                    c, exc = g.clip(bx0, by0, bx1, by1), None
+            except Exception as e:
+                c, exc = None, e
+            ctx.count(("clip-oracle-only", dt.name, c is None, min(nrows, 50) // 10, min(ncols, 50) // 10))
+            judge_clip(None, dict(base, clip=None if c is None else Meta.of(c).js()), g, vals, box, c, exc)
+            return c
+        exc = None
         try:
             with np.errstate(all="ignore"):
                 c = g.clip(bx0, by0, bx1, by1)
             mc = Meta.of(c)
             exp = f"(Some ({mc.term()}, {cm.coq_zlist(patterns(c.data))}))"
-        except Exception:
-            c, exp = None, "None"
+        except Exception as e:
+            c, exp, exc = None, "None", e
 
         def cellof(x, y):
             qx, qy = (Fr(x) - Fr(xll)) / Fr(csz), (Fr(y) - Fr(yll)) / Fr(csz)
@@ -913,43 +1115,49 @@ def run(ctx):
                 f"{cm.coq_float(bx1)} {cm.coq_float(by1)} {prt_term([bx0, by0, bx1, by1])} {exp}",
                 dict(base, clip=None if c is None else Meta.of(c).js()),
                 ("clip", dt.name, min(nrows, 3), min(ncols, 3), c is None, r0e - r1e, c1e - c0e))
+        # general oracle (any corner position)
+        judge_clip(i, replays[i], g, vals, box, c, exc)
         # exact oracle: the cells holding the two corners (rationals), when both are >= 1e-9 cell from an edge
         scale = max(abs(xll), abs(yll), abs(bx1), abs(by1)) / csz
         safe = min(m0, m1) > 1e-9 + 4e-16 * scale and 0 <= c0e <= c1e < ncols and 0 <= r1e <= r0e < nrows
-        if not safe:
-            return
-        if c is None:
-            fail(i, "C13/clip/raises", f"clip to a box inside the extent raised ({nrows}x{ncols} {dt.name})")
-            return
-        if (int(c.nrows), int(c.ncols)) != (r0e - r1e + 1, c1e - c0e + 1) or c.data.shape != (c.nrows, c.ncols):
-            fail(i, "C13/clip/shape", f"clip has shape {(c.nrows, c.ncols)}, the box covers rows {r1e}..{r0e}, "
-                                      f"columns {c0e}..{c1e}")
-            return
-        # "holds exactly the parent's values": bit comparison when the type is kept, exact numeric
-        # comparison (Python int/float semantics, NaN = NaN) otherwise - the statement fixes no type here
-        want = np.ascontiguousarray(vals[r1e:r0e + 1, c0e:c1e + 1])
-        if c.data.dtype == want.dtype:
-            vfails = compare_values(want, c, "Grid.clip")
-        else:
-            vfails = []
-            for wv, gv in zip(want.ravel().tolist(), np.asarray(c.data).ravel().tolist()):
-                if not (wv == gv or (wv != wv and gv != gv)):
-                    vfails = [("values", f"Grid.clip: parent value {wv!r} became {gv!r}")]
-                    break
-        for mode, what in vfails:
-            fail(i, f"C13/clip/{mode}", what + f" (parent {nrows}x{ncols}, rows {r1e}..{r0e}, columns {c0e}..{c1e})")
-        # coinciding centres: clip cell (a, b) has the centre of parent cell (r1e+a, c0e+b)
-        cc = c.cell2coord(np.arange(c.nrows * c.ncols))
-        tol = 1e-9 * csz + 4e-16 * (abs(xll) + abs(yll) + csz * (nrows + ncols))
-        for a_ in range(int(c.nrows)):
-            for b_ in range(int(c.ncols)):
-                ex = Fr(xll) + Fr(csz) * (c0e + b_ + Fr(1, 2))
-                ey = Fr(yll) + Fr(csz) * (nrows - 1 - (r1e + a_) + Fr(1, 2))
-                x, y = cc[a_ * int(c.ncols) + b_]
-                if abs(Fr(float(x)) - ex) > tol or abs(Fr(float(y)) - ey) > tol:
-                    fail(i, "C13/clip/centres", f"clip cell ({a_},{b_}) has centre {(float(x), float(y))}, parent cell "
-                                                f"({r1e + a_},{c0e + b_}) has {(float(ex), float(ey))}")
-                    return
+        def safe_oracle():
+            if c is None:
+                fail(i, "C13/clip/raises", f"clip to a box inside the extent raised ({nrows}x{ncols} {dt.name})")
+                return
+            if (int(c.nrows), int(c.ncols)) != (r0e - r1e + 1, c1e - c0e + 1) or c.data.shape != (c.nrows, c.ncols):
+                fail(i, "C13/clip/shape", f"clip has shape {(c.nrows, c.ncols)}, the box covers rows {r1e}..{r0e}, "
+                                          f"columns {c0e}..{c1e}")
+                return
+            # "holds exactly the parent's values": bit comparison when the type is kept, exact numeric
+            # comparison (Python int/float semantics, NaN = NaN) otherwise - the statement fixes no type here
+            want = np.ascontiguousarray(vals[r1e:r0e + 1, c0e:c1e + 1])
+            if c.data.dtype == want.dtype:
+                vfails = compare_values(want, c, "Grid.clip")
+            else:
+                vfails = []
+                for wv, gv in zip(want.ravel().tolist(), np.asarray(c.data).ravel().tolist()):
+                    if not (wv == gv or (wv != wv and gv != gv)):
+                        vfails = [("values", f"Grid.clip: parent value {wv!r} became {gv!r}")]
+                        break
+            for mode, what in vfails:
+                fail(i, f"C13/clip/{mode}", what + f" (parent {nrows}x{ncols}, rows {r1e}..{r0e}, columns {c0e}..{c1e})")
+            # coinciding centres: clip cell (a, b) has the centre of parent cell (r1e+a, c0e+b)
+            cc = c.cell2coord(np.arange(c.nrows * c.ncols))
+            tol = 1e-9 * csz + 4e-16 * (abs(xll) + abs(yll) + csz * (nrows + ncols))
+            def some(n_):       # every index of a small axis, a stride (with both ends) of a long one
+                return sorted(set(range(0, n_, max(1, n_ // 12))) | {n_ - 1})
+            for a_ in some(int(c.nrows)):
+                for b_ in some(int(c.ncols)):
+                    ex = Fr(xll) + Fr(csz) * (c0e + b_ + Fr(1, 2))
+                    ey = Fr(yll) + Fr(csz) * (nrows - 1 - (r1e + a_) + Fr(1, 2))
+                    x, y = cc[a_ * int(c.ncols) + b_]
+                    if abs(Fr(float(x)) - ex) > tol or abs(Fr(float(y)) - ey) > tol:
+                        fail(i, "C13/clip/centres", f"clip cell ({a_},{b_}) has centre {(float(x), float(y))}, parent cell "
+                                                    f"({r1e + a_},{c0e + b_}) has {(float(ex), float(ey))}")
+                        return
+        if safe:
+            safe_oracle()
+        return c
 
     for k in range(ctx.scale(90, 1200)):
         dt = np.dtype(DTYPES[k % len(DTYPES)])
@@ -981,6 +1189,152 @@ def run(ctx):
             by0, by1 = by1, by0
         case_clip(g, vals, (bx0, by0, bx1, by1), "random clip")
 
+    lap("clip random")
+    # E2. clip boxes whose corners sit ON the lattice of the parent (cell edges, the extent's own corner, cell
+    # centres, one binary64 step either side of them) or on round decimal coordinates, for the cell sizes and
+    # origins rasters really have (decimal degrees 0.05 / 0.0025 / 1/3600..., metres 25.4 / 30 / 250, thirds,
+    # dyadic ones, any) - the region where floor((x - xll) / cellsize), x // cellsize, fmod, round and
+    # truncation part company - on grids from 1x1 to several hundred cells a side (a quotient has to be large
+    # enough for its rounding to reach a whole number), on grids whose georeferencing was assigned after
+    # construction, and on clips of clips.
+    DEC_CSZ = [0.05, 0.1, 0.025, 0.0025, 0.01, 0.2, 0.3, 0.7, 0.001, 0.15, 1.1, 25.4, 1.0 / 3, 1.0 / 7, 2.0 / 3,
+               1.0 / 3600, 3.0 / 3600, 9.0 / 3600, 0.008333333333333333, 0.000277777777777778, 30.0, 12.5, 90.0, 250.0]
+    DYA_CSZ = [1.0, 0.5, 2.0, 0.25, 0.125, 1024.0, 0.0009765625]
+    ROUND_ORG = [0.0, 112.0, -44.0, 140.0, -38.0, 2.0, 5.0, -180.0, 90.0, -10.25, 3.75, 300000.0, 6100000.0,
+                 -2951000.0, 145.44625, -18.29125]
+
+    def lattice_csz():
+        r = rng.random()
+        if r < 0.6:
+            return rng.choice(DEC_CSZ)
+        if r < 0.72:
+            return rng.choice(DYA_CSZ)
+        if r < 0.9:         # one to three significant digits
+            return float(f"{10 ** rng.uniform(-3, 3):.{rng.randint(0, 2)}e}")
+        return 10 ** rng.uniform(-3, 3)
+
+    def lattice_origin(csz):
+        r = rng.random()
+        if r < 0.35:
+            return rng.choice(ROUND_ORG)
+        if r < 0.6:         # a whole number of cells (or of half cells) from zero
+            return float(Fr(csz) * rng.choice([rng.randint(-2000, 2000), rng.randint(-20, 20),
+                                               Fr(rng.randint(-4000, 4000), 2)]))
+        if r < 0.8:
+            return round(rng.uniform(-180, 180) * rng.choice([1, 1, 1000]), rng.randint(0, 4))
+        return rng.uniform(-1, 1) * rng.choice([1, 100, 1e4]) * csz
+
+    POS_KINDS = ["edge", "edge", "edge", "edge-exact", "edge+", "edge-", "centre", "centre-lib", "round", "round",
+                 "inside", "origin"]
+
+    def lattice_pos(g, o, csz, n, k, kind, axis):
+        """coordinate along one axis (origin o, n cells) related to cell k, of the given kind; falls back on
+        the middle of the cell when the exact position is not inside the extent [o, o + n cells)"""
+        if kind == "edge":                  # the edge as a user computes it
+            x = o + k * csz
+        elif kind == "edge-exact":          # the binary64 number nearest to the edge
+            x = float(Fr(o) + k * Fr(csz))
+        elif kind == "edge+":
+            x = math.nextafter(o + k * csz, math.inf)
+        elif kind == "edge-":               # the last number of the cell before (k = 0: top of the extent)
+            x = math.nextafter(o + (k if k > 0 else n) * csz, -math.inf)
+        elif kind == "centre":
+            x = o + (k + 0.5) * csz
+        elif kind == "centre-lib":          # what the library itself gives as the centre of the cell
+            cell = (int(g.nrows) - 1) * int(g.ncols) + k if axis == 0 else (int(g.nrows) - 1 - k) * int(g.ncols)
+            x = float(g.cell2coord(cell)[0, axis])
+        elif kind == "round":               # a round decimal number in or next to the cell
+            x = round(o + (k + rng.random()) * csz, rng.choice([0, 1, 1, 2, 2, 3, 4]))
+        elif kind == "origin":
+            x = o
+        else:
+            x = o + csz * (k + rng.choice([1e-9, 0.5, rng.random(), 1 - 1e-9, 0.25]))
+        q = (Fr(x) - Fr(o)) / Fr(csz)
+        if not (math.isfinite(x) and 0 <= q < n):
+            x = float(Fr(o) + (k + Fr(1, 2)) * Fr(csz))
+            q = (Fr(x) - Fr(o)) / Fr(csz)
+            if not 0 <= q < n:
+                return None
+        return x
+
+    def lattice_box(g, kinds=None):
+        nrows, ncols = int(g.nrows), int(g.ncols)
+        xll, yll, csz = float(g.xllcorner), float(g.yllcorner), float(g.cellsize)
+        c0 = rng.randrange(ncols)
+        c1 = rng.randrange(c0, ncols)
+        b0 = rng.randrange(nrows)           # rows counted from the bottom
+        b1 = rng.randrange(b0, nrows)
+        if rng.random() < 0.06:             # the whole extent
+            c0, c1, b0, b1 = 0, ncols - 1, 0, nrows - 1
+        kinds = kinds or [rng.choice(POS_KINDS) for _ in range(4)]
+        if rng.random() < 0.3:              # both lower-left coordinates of the same kind
+            kinds[1] = kinds[0]
+        box = [lattice_pos(g, xll, csz, ncols, c0, kinds[0], 0), lattice_pos(g, yll, csz, nrows, b0, kinds[1], 1),
+               lattice_pos(g, xll, csz, ncols, c1, kinds[2], 0), lattice_pos(g, yll, csz, nrows, b1, kinds[3], 1)]
+        if any(v is None for v in box):
+            return None, kinds
+        if box[2] < box[0]:
+            box[0], box[2] = box[2], box[0]
+        if box[3] < box[1]:
+            box[1], box[3] = box[3], box[1]
+        return tuple(box), kinds
+
+    def index_values(dt, nrows, ncols):
+        """every cell holds its own number (distinct values: any shift of the window shows)"""
+        return np.arange(nrows * ncols).reshape(nrows, ncols).astype(dt)
+
+    BIG_DT = ["int32", "int64", "uint32", "uint64", "float64", "float32"]
+
+    def lattice_grid(nrows, ncols, small):
+        csz = lattice_csz()
+        xll, yll = lattice_origin(csz), lattice_origin(csz)
+        dt = np.dtype(rng.choice(DTYPES) if small else rng.choice(BIG_DT))
+        late = rng.random() < 0.25          # georeferencing assigned after construction, as Python floats
+        g = hygrid.Grid(rand_name(rng), ncols, nrows, cellsize=1.0 if late else csz, xllcorner=0.0 if late else xll,
+                        yllcorner=0.0 if late else yll, dtype=dt.type, nodata=rand_nodata(rng, dt),
+                        comment=rand_comment(rng))
+        if late:
+            g.cellsize, g.xllcorner, g.yllcorner = csz, xll, yll
+        if small:
+            vals = rand_values(rng, dt, nrows * ncols)
+            g[np.arange(nrows * ncols)] = vals
+            vals = vals.reshape(nrows, ncols)
+            spec = None
+        else:
+            vals = index_values(dt, nrows, ncols)
+            g.data = vals
+            spec = {"grid": Meta.of(g).js(), "values": "cell-index"}
+        ctx.count(("lattice grid", late, small, csz in DEC_CSZ, csz in DYA_CSZ))
+        return g, vals, spec
+
+    def lattice_case(nrows, ncols, tag):
+        small = nrows * ncols <= 900
+        g, vals, spec = lattice_grid(nrows, ncols, small)
+        box, kinds = lattice_box(g)
+        if box is None:
+            return
+        ctx.count(("lattice box",) + tuple(kinds[:2]))
+        c = case_clip(g, vals, box, f"{tag}; corner kinds {kinds}", model=small, spec=spec)
+        # a clip of the clip: the clip is a grid like any other (its corner was computed, not typed)
+        if c is not None and rng.random() < 0.35:
+            cvals = np.ascontiguousarray(c.data).copy()
+            if not (cvals.dtype == vals.dtype and int(c.nrows) * int(c.ncols) <= 900):
+                return
+            box2, kinds2 = lattice_box(c)
+            if box2 is not None:
+                case_clip(c, cvals, box2, f"{tag}; clip of a clip, corner kinds {kinds2}", model=True)
+
+    def lattice_side(cls):
+        return {0: rng.randint(1, 7), 1: rng.randint(8, 30), 2: rng.randint(31, 160), 3: rng.randint(161, 850)}[cls]
+
+    for k in range(ctx.scale(170, 2400)):
+        cls = rng.choice([0, 1, 1, 1, 1, 2, 2]) if k % 17 else 3
+        other = cls if rng.random() < 0.7 else rng.choice([0, 1, 2])
+        sides = [lattice_side(cls), lattice_side(other)]
+        rng.shuffle(sides)
+        lattice_case(sides[0], sides[1], "lattice clip")
+
+    lap("clip lattice")
     # ------------------------------------------------------------------
     # F. catchments
     def rand_flow(nrows, ncols):
@@ -1075,9 +1429,21 @@ def run(ctx):
             case_raster(spec["dtype"], spec["byteorder"], spec["nrows"], spec["ncols"], spec["patterns"],
                         spec["nodata"], tag, tuple(spec.get("geo", (0.25, 1.5, -2.0))),
                         tuple(spec.get("style", PLAIN)))
+        elif kind == "save-load-big":
+            dtb = np.dtype(spec["dtype"])
+            case_save_big(dtb, spec["nrows"], spec["ncols"], tuple(spec["geo"]),
+                          float(spec["nodata"]) if dtb.kind == "f" else int(spec["nodata"]), spec["value_seed"], tag)
         elif kind == "clip":
-            g, vals = build_grid(spec)
-            case_clip(g, vals, tuple(spec["box"]), tag)
+            if spec.get("values") == "cell-index":
+                js = spec["grid"]
+                g, _ = build_grid({"grid": js, "patterns": [0] * (js["nrows"] * js["ncols"])})
+                vals = np.arange(js["nrows"] * js["ncols"]).reshape(js["nrows"], js["ncols"]).astype(js["dtype"])
+                g.data = vals
+                case_clip(g, vals, tuple(spec["box"]), tag, model=False,
+                          spec={"grid": js, "values": "cell-index"})
+            else:
+                g, vals = build_grid(spec)
+                case_clip(g, vals, tuple(spec["box"]), tag)
         elif kind == "catchment":
             case_catchment(spec["nrows"], spec["ncols"], spec["flowdir"], spec["outlet"], spec["inlets"],
                            spec.get("delineate", True), tuple(spec.get("geo", [1.0, 0.0, 0.0, 0, ""])), tag)
@@ -1098,7 +1464,9 @@ def run(ctx):
     ctx.notes["recorded_replays_run"] = nrep
 
     # ------------------------------------------------------------------
+    lap("catchments+replays")
     bad, nshards, failed = cm.run_case_files(PID, HEADER, "iocase", "io_ok", terms, shard=120, max_bytes=250000)
+    lap("coq case files")
     ctx.notes["correspondence_cases"] = len(terms)
     ctx.notes["correspondence_mismatches"] = len(bad)
     for k in range(nshards):
